@@ -227,25 +227,43 @@ def _check_twin(ctx, f):
     cfg = CFG(f.node)
     raises = [n for n in ast.walk(f.node) if isinstance(n, ast.Raise)]
     guard_ok = False
+    def positives_count(t):
+        """is t 'how many / whether any labels are +1'?"""
+        c = np_call(t)
+        if c and c[0] in ("sum", "any", "count_nonzero") and c[1]:
+            m = strip_conv(c[1][0])
+            return m[0] == "cmp" and m[1] == "==" and ("const", 1) in (
+                m[2], m[3])
+        if t[0] == "call" and t[1] == "builtins.len" and t[2]:
+            x = t[2][0]
+            return x[0] == "sub" and positives_count(
+                ("mcall", x[2], "sum", (), ()))
+        return False
+
+    def says_none(t, o):
+        """does (test, outcome) mean 'there is no positive label'?"""
+        while t[0] == "un" and t[1] == "not":
+            t, o = t[2], not o
+        if positives_count(t):
+            return not o
+        if t[0] == "cmp" and positives_count(t[2]) and t[3][0] == "const":
+            k = t[3][1]
+            return {("==", 0): o, ("!=", 0): not o, (">", 0): not o,
+                    ("<", 1): o, (">=", 1): not o, ("<=", 0): o}.get(
+                        (t[1], k), False)
+        if t[0] == "cmp" and positives_count(t[3]) and t[2][0] == "const":
+            k = t[2][1]
+            return {("==", 0): o, ("!=", 0): not o, ("<", 0): not o,
+                    (">", 1): False, ("<=", 1): False}.get((t[1], k),
+                                                            False)
+        return False
+
     for r in raises:
-        for test, pol in cfg.guards(r):
-            tt = T.of(test)
-            # not pos.sum()   /  pos.sum() == 0
-            inner = tt
-            neg = False
-            if tt[0] == "un" and tt[1] == "not":
-                inner, neg = tt[2], True
-            elif tt[0] == "cmp" and tt[1] == "==" and tt[3] == ("const", 0):
-                inner, neg = tt[2], True
-            c = np_call(inner)
-            if pol and neg and c and c[0] in ("sum", "any") and c[1]:
-                m = strip_conv(c[1][0])
-                if m[0] == "cmp" and m[1] == "==" and m[3] == ("const", 1):
-                    # the raise must dominate the return
-                    if cfg.every_path_passes(
-                            cfg.entry.id, cfg.node_of(rnode).id,
-                            {cfg.node_of(cfg.stmt_of(test)).id}):
-                        guard_ok = True
+        for test, pol in cfg.necessary_conditions(r):
+            if says_none(T.of(test), pol) and cfg.every_path_passes(
+                    cfg.entry.id, cfg.node_of(rnode).id,
+                    {cfg.node_of(cfg.stmt_of(test)).id}):
+                guard_ok = True
     ctx.check(guard_ok, "C11a-empty-guard", f,
               "no accepted target -> explicit error before the anchors are "
               "used",
